@@ -81,6 +81,8 @@ var headerSets = [][][2]string{
 	{{"X-Single", "one"}},
 	{{"X-Single", "one"}, {"X-Multi", "a"}, {"X-Multi", "b"}, {"Accept", "*/*"}, {"Authorization", "Bearer s3cr3t"}, {"Proxy-Authorization", "Basic eHl6"}},
 	{{"x-single", "one"}, {"X-MULTI", "a"}, {"x-Multi", "b"}, {"Cookie", "k=v; k2=v2"}},
+	// what clients that upload send: an expectation, a second Cookie line, a conditional
+	{{"Expect", "100-continue"}, {"Cookie", "a=1"}, {"Cookie", "b=2"}, {"If-Match", "\"v1\""}, {"Te", "trailers"}},
 }
 
 type c06case struct {
